@@ -369,7 +369,12 @@ func (w *World) projBridge() Rec {
 	if x, err := w.App.BridgeKeeper.WithdrawalId.Get(w.Ctx); err == nil {
 		wid = int(x.Id)
 	}
-	return Rec{"claimed": claimed, "wid": wid}
+	cps := []Rec{}
+	_ = w.App.BridgeKeeper.ValidatorCheckpointParamsMap.Walk(w.Ctx, nil, func(ts uint64, p bridgetypes.ValidatorCheckpointParams) (bool, error) {
+		cps = append(cps, Rec{"ts": NumU64(ts), "thr": NumU64(p.PowerThreshold)})
+		return false, nil
+	})
+	return Rec{"claimed": claimed, "wid": wid, "cps": cps}
 }
 
 // projHoldings: for every named user account its liquid balance, delegated stake (delegations at
